@@ -9,6 +9,13 @@
            jitter: seeded delays at every lower-layer call and the blob with the smallest ref as the 101st, so
            that the job's first index read overtakes that receive's index.Set: the job gives up, >100 small
            meta blobs stay until a start-up scan compacts them.
+   long    histories past FullMetaBlobSize (Full = 10000 lines): the packed meta blob that rolls on from compaction to
+           compaction (101, 201, ... lines) exceeds Full inside receive Full + 1 and is then left alone; the next
+           compaction (receive Full + Limit + 2) packs only the Limit + 1 one-entry meta blobs recorded since.  n =
+           Full + Limit + 50 receives; restarts - index kept or wiped - before the crossing (Full - 50), right at it
+           (Full + 1), after it (Full + 50: the start-up scan must leave the full meta blob alone); always a final
+           restart from the wrapped stores alone with a fetch of every blob.  Recorded with macro lines (see
+           Trace_Encrypt.tla); raw = one line per lower-layer call over the whole history (thorough tier, once).
    crash   the process dies at a lower-layer call of the receive that triggers the compaction and of the job it
            starts: w<i> = i-th call of that window (index duplicate check, blobs.ReceiveBlob, meta.ReceiveBlob
            of the one-entry meta, index.Set / first index reads of the job), m<pct> = inside the job's index
@@ -24,10 +31,11 @@
            whose plaintext is a well-formed meta file copied over a meta blob. *)
 EXTENDS Naturals, FiniteSets, Sequences, SequencesExt, TLC, Json
 
-CONSTANTS Tier      \* "quick" | "thorough"
+CONSTANTS Tier,     \* "quick" | "thorough"
+          Limit, Full   \* encrypt.SmallMetaCountLimit, encrypt.FullMetaBlobSize of the code under test
 
-VARIABLES kind, n, restarts, jitter, at, wipe, second, cont, target, tk, pos
-gvars == <<kind, n, restarts, jitter, at, wipe, second, cont, target, tk, pos>>
+VARIABLES kind, n, restarts, jitter, at, wipe, second, cont, target, tk, pos, raw
+gvars == <<kind, n, restarts, jitter, at, wipe, second, cont, target, tk, pos, raw>>
 
 Quick == Tier = "quick"
 HistLens == IF Quick THEN {105, 230} ELSE {105, 150, 205, 230, 320}
@@ -39,6 +47,13 @@ RestartSeqs(len) ==
                       /\ Cardinality(R2) <= MaxRestarts
                       /\ \A a \in Points(len) \ R2 : w2[a] = FALSE}}
 
+LongLen == Full + Limit + 50
+LongRestarts == IF Quick THEN {<<[at |-> Full + 50, wipe |-> TRUE]>>}
+                ELSE {<<>>} \cup {<<[at |-> a, wipe |-> w]>> : a \in {Full - 50, Full + 1, Full + 50}, w \in BOOLEAN}
+LongScenarios == {[n |-> LongLen, restarts |-> r, raw |-> FALSE] : r \in LongRestarts}
+                 \cup (IF Quick THEN {} ELSE {[n |-> LongLen + Limit, restarts |-> <<[at |-> Full + 1, wipe |-> TRUE]>>, raw |-> FALSE],
+                                             [n |-> LongLen, restarts |-> <<[at |-> Full + 50, wipe |-> TRUE]>>, raw |-> TRUE]})
+
 CrashPoints == {"w1", "w2", "w3", "w4", "w5", "m30", "m70", "e3", "e2", "e1", "e0", "rmpartial"}
 SecondOf(a) == IF a \in {"e1", "e2", "rmpartial", "m70"} THEN (IF Quick THEN {"", "e1", "e2"} ELSE {"", "e0", "e1", "e2", "e3", "m50", "w1", "w3"}) ELSE {""}
 ContOf(a, s) == IF s = "" /\ a \in {"e1", "e2", "w3", "rmpartial"} THEN {3, 105} ELSE {3}
@@ -48,18 +63,20 @@ Kinds == {"flip", "trunc1", "trunchalf", "trunc0", "extend", "swap", "xswap"}
 FlipPos(t) == {"version", "header", "mac", "body", "last"} \cup (IF ~Quick /\ t \in {"blobtiny", "metasingle", "blob"} THEN {"all"} ELSE {})
 
 Init ==
+  \/ /\ kind = "long" /\ \E s \in LongScenarios : n = s.n /\ restarts = s.restarts /\ raw = s.raw
+     /\ wipe = FALSE /\ jitter = FALSE /\ at = "" /\ second = "" /\ cont = 0 /\ target = "" /\ tk = "" /\ pos = ""
   \/ /\ kind = "hist" /\ n \in HistLens /\ restarts \in RestartSeqs(n) /\ wipe = FALSE /\ jitter \in BOOLEAN
-     /\ at = "" /\ second = "" /\ cont = 0 /\ target = "" /\ tk = "" /\ pos = ""
+     /\ at = "" /\ second = "" /\ cont = 0 /\ target = "" /\ tk = "" /\ pos = "" /\ raw = FALSE
   \/ /\ kind = "crash" /\ at \in CrashPoints /\ wipe \in BOOLEAN /\ second \in SecondOf(at) /\ cont \in ContOf(at, second)
-     /\ n = 0 /\ restarts = <<>> /\ jitter = FALSE /\ target = "" /\ tk = "" /\ pos = ""
+     /\ n = 0 /\ restarts = <<>> /\ jitter = FALSE /\ target = "" /\ tk = "" /\ pos = "" /\ raw = FALSE
   \/ /\ kind = "tamper" /\ target \in Targets /\ tk \in Kinds /\ wipe \in BOOLEAN
      /\ pos \in (IF tk = "flip" THEN FlipPos(target) ELSE {"-"})
-     /\ n = 0 /\ restarts = <<>> /\ jitter = FALSE /\ at = "" /\ second = "" /\ cont = 0
+     /\ n = 0 /\ restarts = <<>> /\ jitter = FALSE /\ at = "" /\ second = "" /\ cont = 0 /\ raw = FALSE
   \/ /\ kind = "tamper" /\ target = "metasingle" /\ tk = "forge" /\ pos \in {"own", "other"} /\ wipe \in BOOLEAN
-     /\ n = 0 /\ restarts = <<>> /\ jitter = FALSE /\ at = "" /\ second = "" /\ cont = 0
+     /\ n = 0 /\ restarts = <<>> /\ jitter = FALSE /\ at = "" /\ second = "" /\ cont = 0 /\ raw = FALSE
 Next == UNCHANGED gvars
 Spec == Init /\ [][Next]_gvars
 
 Emit == PrintT(<<"SCN", ToJson([kind |-> kind, n |-> n, restarts |-> restarts, jitter |-> jitter, at |-> at, wipe |-> wipe, second |-> second,
-                                cont |-> cont, pre |-> 100, target |-> target, tk |-> tk, pos |-> pos])>>)
+                                cont |-> cont, pre |-> Limit, target |-> target, tk |-> tk, pos |-> pos, raw |-> raw])>>)
 =============================================================================
